@@ -20,6 +20,13 @@ def build(tier, seed):
     for w, j, flen in ([(1, 0, 1), (2, 1, 4)] if tier == "quick" else [(1, 0, 1), (1, 0, 2), (2, 1, 4), (3, 2, 5)]):
         I.append(snd("c07_silence_snd_w%d_j%d_f%d" % (w, j, flen), w, 2, j, flen, oracle=so,
                      events=[(K_TIMEOUT, None, 0, 5)] * 10, tmo=5, unw=12, timeout=900))
+    # (c2) five failed receives, a late duplicate ACK (sender) / duplicate block (receiver), then silence: the retry bound must still hold
+    for w, j, flen in ([(2, 1, 4)] if tier == "quick" else [(2, 1, 4), (1, 0, 3), (3, 2, 6)]):
+        I.append(snd("c07_dupack_silence_snd_w%d_j%d_f%d" % (w, j, flen), w, 2, j, flen, oracle=so, r0=5, tmo=5, b0=(7, 7), unw=8,
+                     events=[(K_ACK, -1, 0, 0)] + [(K_TIMEOUT, None, 0, 5)] * 4))
+    for w, j in ([(2, 1)] if tier == "quick" else [(2, 1), (1, 0), (3, 2)]):
+        I.append(rcv("c07_dupdata_silence_rcv_w%d_j%d" % (w, j), w, 2, j, 2, oracle=ro, r0=5, tmo=5, b0=(7, 7),
+                     events=[(K_DATA, 0, 2, 0)] + [(K_TIMEOUT, None, 0, 5)] * 4))
     # (d) states after the end of the file was read (last pre-loaded chunk short): partial-window ACK,
     #     duplicate ACK, full ACK around the end of file
     for w, j, flen in ([(2, 2, 3), (3, 2, 2), (3, 3, 5), (2, 1, 1)] if tier == "quick" else
